@@ -355,6 +355,63 @@ Proof.
       destruct (label_target pre idx 0); [reflexivity|]. apply Z.eqb_neq in N. now rewrite N.
 Qed.
 
+(* round 6: set_commands returns (its `assert label not in label_targets` does not fire) when the labels are pairwise different *)
+Lemma label_target_in : forall pre idx p t, label_target pre idx p = Some t -> In idx (labels pre).
+Proof.
+  intros pre idx p t H. destruct (in_dec Z.eq_dec idx (labels pre)) as [I|N]; [exact I|exfalso].
+  pose proof (label_target_skip pre [] idx p N) as S. rewrite app_nil_r in S. cbn in S. congruence.
+Qed.
+
+Local Ltac nonlabel_ok c0 IH pre X Hc Ht Hsn Hn :=
+  match goal with |- context [gen_set_commands_loop1 _ ?g2 _] =>
+    let H1 := fresh "H1" in let H2 := fresh "H2" in
+    assert (H1 : gvm_commands g2 = map embed (pre ++ [c0])) by (cbn [gvm_commands]; rewrite Hc, map_app; reflexivity);
+    assert (H2 : forall idx, alookup Z.eqb idx (gvm_label_targets g2) = label_target (pre ++ [c0]) idx 0)
+      by (intros idx; cbn [gvm_label_targets]; rewrite Hsn, Ht; destruct (label_target pre idx 0); reflexivity);
+    exact (IH (pre ++ [c0]) g2 X H1 H2 Hn)
+  end.
+
+Lemma gen_set_commands_loop_ok : forall rest pre g X,
+  gvm_commands g = map embed pre ->
+  (forall idx, alookup Z.eqb idx (gvm_label_targets g) = label_target pre idx 0) ->
+  NoDup (labels (pre ++ rest)) ->
+  exists g', gen_set_commands_loop1 (map embed rest) g X = Ok g'.
+Proof.
+  induction rest as [|c rest IH]; intros pre g X Hc Ht Hn; cbn [map gen_set_commands_loop1].
+  - eexists; reflexivity.
+  - assert (Hsn : forall idx, label_target (pre ++ [c]) idx 0 = match label_target pre idx 0 with Some t => Some t | None =>
+                   match c with CLabel i _ => if (i =? idx)%Z then Some (S (length pre)) else None | _ => None end end).
+    { intros idx. now rewrite label_target_snoc. }
+    assert (Hn' : NoDup (labels ((pre ++ [c]) ++ rest))) by (rewrite <- app_assoc; exact Hn).
+    destruct c as [ch v k|ch v k|d|i n|i]; cbn [embed]; cbv zeta.
+    1: nonlabel_ok (CSet ch v k) IH pre X Hc Ht Hsn Hn'.
+    1: nonlabel_ok (CInc ch v k) IH pre X Hc Ht Hsn Hn'.
+    1: nonlabel_ok (CWait d) IH pre X Hc Ht Hsn Hn'.
+    2: nonlabel_ok (CJmp i) IH pre X Hc Ht Hsn Hn'.
+    cbn [gvm_label_targets gvm_commands]. rewrite Ht.
+    destruct (label_target pre i 0) eqn:El; cbn [is_some negb].
+    { exfalso. apply label_target_in in El. rewrite labels_app in Hn. cbn [labels] in Hn. apply NoDup_remove_2 in Hn.
+      apply Hn. apply in_or_app. left. exact El. }
+    match goal with |- context [gen_set_commands_loop1 _ ?g2 _] =>
+      assert (H1 : gvm_commands g2 = map embed (pre ++ [CLabel i n])) by (cbn [gvm_commands]; rewrite Hc, map_app; reflexivity);
+      assert (H2 : forall idx, alookup Z.eqb idx (gvm_label_targets g2) = label_target (pre ++ [CLabel i n]) idx 0);
+      [|exact (IH (pre ++ [CLabel i n]) g2 X H1 H2 Hn')]
+    end.
+    intros idx. cbn [gvm_label_targets]. rewrite Hsn, Hc, app_length, map_length, Nat.add_1_r. destruct (Z.eq_dec i idx) as [->|N].
+    + rewrite (alookup_aset_same Z.eqb Zeqb_spec), El, Z.eqb_refl. reflexivity.
+    + rewrite (alookup_aset_other Z.eqb Zeqb_spec) by auto. rewrite Ht.
+      destruct (label_target pre idx 0); [reflexivity|]. apply Z.eqb_neq in N. now rewrite N.
+Qed.
+
+Theorem gen_set_commands_ok : forall channels cmds, NoDup (labels cmds) ->
+  exists g0, gen_set_commands (gvm_init channels) (map embed cmds) = Ok g0.
+Proof.
+  intros channels cmds Hn. unfold gen_set_commands. cbn [gvm_init gvm_current_values gvm_time gvm_registers gvm_history
+    gvm_commands gvm_label_targets gvm_label_counts gvm_current_command].
+  match goal with |- context [gen_set_commands_loop1 _ ?g _] => apply (gen_set_commands_loop_ok cmds [] g (map embed cmds) eq_refl) end;
+    [intros idx; reflexivity|exact Hn].
+Qed.
+
 Theorem gen_set_commands_init : forall channels cmds g0,
   gen_set_commands (gvm_init channels) (map embed cmds) = Ok g0 -> vm_R cmds g0 (vm0 channels).
 Proof.
